@@ -12,7 +12,7 @@ Shape B.  Families of shards:
 * ``w``      -- all W arrays of <= 3 items from a 9-item pool (with a range up to CID 65535) x DW x {Identity-H, 90ms-RKSJ-H}; W2/DW2 x vertical CMaps.
 * ``wbound`` -- W and W2 entries (list and range forms) whose first or last CID is 0, 1, 255, 256, 65534 or 65535, and a
                range whose last CID lies beyond 65535; the CIDs around the boundary are shown.
-* ``ttf``    -- embedded TrueType cmap tables (formats 0, 4, 12; platform filtering) under Adobe-Identity.
+* ``ttf``    -- embedded TrueType cmap tables (formats 0, 4 incl. glyphIdArray with a wrapping idDelta, 12; platform filtering) under Adobe-Identity.
 * ``coll``   -- predefined CMap + character collection wiring through a document; odd-length identity strings.
 * ``fb``     -- ToUnicode maps that omit shown codes: fall back to the collection / the embedded TrueType cmap.
 * ``c2g``    -- CIDToGIDMap (name, plain and Flate streams; identity, shifted, permuted, several CIDs per glyph) with an embedded TrueType cmap.
@@ -77,7 +77,8 @@ META = {
         "unmapped trail byte is an undefined two-byte code (skipped, decoding restarts after it); for any other byte "
         "that begins no defined code only the CIDs before it are judged; notdef ranges are not modelled",
         "embedded (non-predefined) encoding CMap streams (the statement names the predefined CMaps only; notdef and "
-        "cidrange of embedded CMaps therefore too) and duplicate ToUnicode sources are not generated",
+        "cidrange of embedded CMaps therefore too) are not generated; a code defined twice in a ToUnicode CMap takes "
+        "the later entry, except that a code mapped to SPACE is not re-mapped to NO-BREAK SPACE (the library's documented guard)",
         "vertical glyph boxes are not judged except the horizontal origin shift -vx of explicit W2 entries; "
         "pen displacement and LTChar.adv are",
         "strings longer than the bound, bytes outside the alphabet, W arrays with more items than the bound are not explored",
@@ -956,9 +957,10 @@ def ttf_fmt4(segs) -> bytes:
             deltas.append((g - s) & 0xFFFF)
             ros.append(0)
         else:
-            deltas.append(0)
+            dl = getattr(g, "delta", 0)
+            deltas.append(dl & 0xFFFF)
             ros.append(2 * (n - i) + 2 * len(garr))  # from &idRangeOffset[i] to the glyph's slot in glyphIdArray
-            garr += list(g)
+            garr += [(x - dl) & 0xFFFF for x in g]
     body = (struct.pack(">HHHH", n * 2, 0, 0, 0) + struct.pack(">%dH" % n, *ends) + b"\0\0" + struct.pack(">%dH" % n, *starts)
             + struct.pack(">%dH" % n, *deltas) + struct.pack(">%dH" % n, *ros) + struct.pack(">%dH" % len(garr), *garr))
     return struct.pack(">HHH", 4, 6 + len(body), 0) + body
@@ -981,9 +983,23 @@ def ttf_file(subtables) -> bytes:
     return b"\x00\x01\x00\x00" + struct.pack(">HHHH", 1, 16, 0, 0) + struct.pack(">4sLLL", b"cmap", 0, 28, len(cmap)) + cmap
 
 
+class DeltaGids(list):
+    """glyph ids of an 'array' segment that also carries a non-zero idDelta: glyphIdArray holds (gid - idDelta) mod
+    65536 and the reader adds idDelta modulo 65536 (OpenType cmap format 4)."""
+
+    delta = 0
+
+
+def _delta_gids(gids, delta):
+    g = DeltaGids(gids)
+    g.delta = delta
+    return g
+
+
 SEG_POOL = [
     (0x0041, 0x0043, "delta", 5),
     (0x0061, 0x0063, "array", [9, 10, 11]),
+    (0x00C0, 0x00C2, "array", _delta_gids([61, 62, 50], 100)),  # stored 0xFFD9, 0xFFDA, 0xFFCE: the sum wraps
     (0x3042, 0x3044, "delta", 20),
     (0x4E00, 0x4E01, "array", [31, 30]),
     (0xFF21, 0xFF22, "delta", 40),
@@ -1707,6 +1723,39 @@ def check_usecmap(name: str):
     return bad, (name, tuple(got[-4:]))
 
 
+# ------------------------------------------------------------------ the same code defined twice in a ToUnicode CMap
+# The later entry wins -- except the library's documented guard: a code already mapped to SPACE is not re-mapped to
+# NO-BREAK SPACE by a later entry.
+TOUDUP_ENTRIES = [
+    ("range", b"\x00\x41", b"\x00\x43", "a"),
+    ("char", b"\x00\x42", "\u00a0"),  # bfrange, then bfchar: nbsp replaces "b"
+    ("char", b"\x00\x44", " "),
+    ("range", b"\x00\x44", b"\x00\x45", "\u00a0"),  # space stays (guard); 0045 becomes U+00A1
+    ("char", b"\x00\x46", "X"),
+    ("range", b"\x00\x46", b"\x00\x46", "\u00a0"),  # bfchar, then bfrange: nbsp replaces "X"
+    ("char", b"\x00\x47", "\u00a0"),
+    ("char", b"\x00\x47", "Y"),  # nbsp, then "Y"
+    ("array", b"\x00\x48", b"\x00\x49", ["P", "Q"]),
+    ("array", b"\x00\x48", b"\x00\x49", ["\u00a0", " "]),  # array form: nbsp replaces "P", space replaces "Q"
+    ("char", b"\x00\x49", "\u00a0"),  # ... and that space stays
+]
+TOUDUP_MODEL = {0x41: "a", 0x42: "\u00a0", 0x43: "c", 0x44: " ", 0x45: "\u00a1", 0x46: "\u00a0", 0x47: "Y", 0x48: "\u00a0", 0x49: " "}
+
+
+def toudup_cases():
+    for enc in ("Identity-H", "Identity-V"):
+        for sp in ("canonical", "section-per-entry", "lowercase-hex"):
+            yield ("toudup", enc, sp)
+
+
+def build_toudup(enc: str, sp: str):
+    vertical = is_vertical_name(enc)
+    cids = sorted(TOUDUP_MODEL) + [0x4A]
+    exp = [{"text": TOUDUP_MODEL.get(c, "(cid:%d)" % c), "adv": Fraction(-FS if vertical else FS), "vert": vertical, "tag": "tounicode-redefined", "note": f"code {c:04x}"} for c in cids]
+    pdf = type0_doc(enc, [b"".join(c.to_bytes(2, "big") for c in cids)], tou=tou_stream(TOUDUP_ENTRIES, sp))
+    return pdf, exp, vertical
+
+
 def odd_cases():
     for enc in ("Identity-H", "Identity-V", "DLIdent-H"):
         for s in (b"\x00\x41\x00", b"\x00", b"\x00\x41\x00\x42\x43"):
@@ -1748,6 +1797,9 @@ def doc_case(c):
     if kind == "tw":
         pdf, exp, v = build_tw(c[1], c[2], c[3])
         return pdf, exp, v, "C07/word-spacing", {"encoding": TW_FONTS[c[1]], "operator": c[2], "Tw": c[3]}, classify_tw
+    if kind == "toudup":
+        pdf, exp, v = build_toudup(c[1], c[2])
+        return pdf, exp, v, "C07/tounicode-redefinition", {"encoding": c[1], "spelling": c[2]}, None
     if kind == "wbound":
         pdf, exp, v = build_wbound(c[1], c[2], c[3])
         return pdf, exp, v, "C07/widths-boundary", {"cid": c[1], "form": c[2], "vertical": c[3]}, None
@@ -1792,6 +1844,7 @@ def all_doc_cases(tier: str) -> List[tuple]:
     out += list(odd_cases())
     out += list(onebyte_cases())
     out += list(tj_cases(tier))
+    out += list(toudup_cases())
     out += list(wbound_cases())
     out += list(mixres_cases())
     out += list(tw_cases())
